@@ -530,6 +530,7 @@ pub fn run_property(spec: PropSpec, opt: Options) -> i32 {
     let rec = json!({
       "property": spec.id, "check": first.3, "tier": opt.tier.name(), "seed": opt.seed,
       "key": key, "what": first.1, "detail": first.2, "case": first.4,
+      "profile": if cfg!(debug_assertions) { "release" } else { "plain" },
       "occurrences_in_run": vs.len(),
       "replay_cmd": format!("./check {} --replay {}", spec.id, path),
       "thread_history": if needs_history { json!(first.5.as_ref()) } else { json!([]) },
@@ -568,6 +569,8 @@ pub fn run_property(spec: PropSpec, opt: Options) -> i32 {
     "per_check": per_check,
     "notes": a.notes,
     "known_findings_hit": known_hits,
+    "build_profile": if cfg!(debug_assertions) { "release (debug assertions and overflow checks on)" } else { "plain (debug assertions and overflow checks off)" },
+    "other_profile_run": std::env::var("VERIF_PLAIN_SUMMARY").ok().map(|s| format!("the same checks were run first with the harness and the library built WITHOUT debug assertions and overflow checks (profile 'plain'), no violation: {}", s)),
   });
   if spec.level == "model_checking" {
     coverage["states"] = json!(states.max(1));
